@@ -122,3 +122,16 @@ def run(ctx):
 
     r = ctx.rule("R10", "a decided choice op is its selected operand for every value type: Grad min / max / and / or return that operand whole (value and derivatives), so a simplified tape has the original's gradient", 14)
     ctx.guarded(r, C05_.r3_piecewise)
+    # a decided `and` / `or` is replaced by one operand because the traced evaluator saw the other one's zero test come
+    # out one way; every evaluator that later runs the parent or the child must apply the *same* zero test
+    # (float ==: -0.0 is zero, NaN is not), or parent and child part ways exactly at such an operand
+    from .. import x86sem as XS86_
+    from .. import a64sem as XS64_
+
+    r = ctx.rule("R11", "every native evaluator tests the operand of and / or / not with the interpreter's zero test: float compares only (no integer compare on tape data), masks and selects give the opcode's value lane by lane", 23 + 8 + 39 + 12)
+    for kind in AC.ALL:
+        ctx.guarded(r, AC.check_int_compare, kind)
+        ctx.guarded(r, XS86_.check_mask_logic, kind)
+    for kind in XC.KINDS if hasattr(XC, "KINDS") else ("point", "interval", "float_slice", "grad_slice"):
+        ctx.guarded(r, XC.check_int_compare, kind)
+        ctx.guarded(r, XS64_.check_mask_logic, kind)
